@@ -1159,7 +1159,7 @@ class Normaliser(object):
 
     def run(self):
         if self.inline_only:
-            self._defs_to_lambdas = self._ifs_to_conditional_expressions = self._outline = self._merge_conditional_calls = self._split_parallel_assignments = self._for_else_to_early_exit = self._scalarise_private_namedtuples = lambda: None
+            self._defs_to_lambdas = self._ifs_to_conditional_expressions = self._outline = self._merge_conditional_calls = self._split_parallel_assignments = self._for_else_to_early_exit = self._scalarise_private_namedtuples = self._forward_pure_loads = lambda: None
         self._defs_to_lambdas()
         if not self.helpers:
             self._split_parallel_assignments()
@@ -1185,6 +1185,7 @@ class Normaliser(object):
         self._propagate_temporaries()
         self._scalarise_private_namedtuples()
         self._propagate_temporaries()
+        self._forward_pure_loads()
         self._split_parallel_assignments()
         self._for_else_to_early_exit()
         self._ifs_to_conditional_expressions()
@@ -1403,6 +1404,61 @@ class Normaliser(object):
                     for n_ in new_assigns:
                         ast.fix_missing_locations(n_)
                     norm_.inlined.append((b.value.func.id, fn.name, 'namedtuple-scalarised'))
+
+    def _forward_pure_loads(self):
+        """`x = <name / attribute chain / constant>` bound once, read once later in the same block with nothing but such plain loads assigned in
+        between, is replaced at its use - for the field locals left by namedtuple scalarisation and for locals that only name a callee
+        (`f = obj.method` ... `f(args)`).  Reads of attributes are taken to have no effect (stated approximation, like value formatting)."""
+        def chain(e):
+            while isinstance(e, ast.Attribute):
+                e = e.value
+            return isinstance(e, (ast.Name, ast.Constant))
+
+        def plain_load_assign(s_):
+            return isinstance(s_, ast.Assign) and len(s_.targets) == 1 and isinstance(s_.targets[0], ast.Name) and chain(s_.value)
+        norm_ = self
+        for t in self.trees.values():
+            for fn in [n for n in ast.walk(t) if isinstance(n, ast.FunctionDef)]:
+                counts = {}
+                for n in _walk_own(fn):
+                    if isinstance(n, ast.Name):
+                        c = counts.setdefault(n.id, [0, 0])
+                        c[0 if isinstance(n.ctx, ast.Load) else 1] += 1
+
+                def rewrite(stmts):
+                    i = 0
+                    while i < len(stmts):
+                        s_ = stmts[i]
+                        for fld in ('body', 'orelse', 'finalbody'):
+                            b = getattr(s_, fld, None)
+                            if isinstance(b, list) and b and isinstance(b[0], ast.stmt) and not isinstance(s_, (ast.FunctionDef, ast.ClassDef)):
+                                rewrite(b)
+                        for h in getattr(s_, 'handlers', []) or []:
+                            rewrite(h.body)
+                        if plain_load_assign(s_):
+                            nm = s_.targets[0].id
+                            if counts.get(nm) == [1, 1] and not (isinstance(s_.value, ast.Name) and counts.get(s_.value.id, [0, 0])[1] != 1):
+                                j = i + 1
+                                while j < len(stmts) and plain_load_assign(stmts[j]) and not any(isinstance(x, ast.Name) and x.id == nm for x in ast.walk(stmts[j])):
+                                    j += 1
+                                if j < len(stmts):
+                                    use = [x for x in ast.walk(stmts[j]) if isinstance(x, ast.Name) and x.id == nm and isinstance(x.ctx, ast.Load)]
+                                    in_nested = any(isinstance(d, (ast.FunctionDef, ast.Lambda, ast.ListComp, ast.GeneratorExp, ast.DictComp, ast.SetComp)) and
+                                                    any(x is use[0] for x in ast.walk(d)) for d in ast.walk(stmts[j])) if use else True
+                                    callee = bool(use) and any(isinstance(c_, ast.Call) and c_.func is use[0] for c_ in ast.walk(stmts[j]))
+                                    if len(use) == 1 and not in_nested and ('__' in nm or callee) and not isinstance(stmts[j], (ast.For, ast.While, ast.With, ast.Try, ast.If)):
+                                        val = s_.value
+
+                                        class R(ast.NodeTransformer):
+                                            def visit_Name(self_, n):
+                                                return ast.copy_location(copy.deepcopy(val), n) if n is use[0] else n
+                                        stmts[j] = R().visit(stmts[j])
+                                        del stmts[i]
+                                        counts[nm] = [0, 0]
+                                        norm_.inlined.append(('plain load', fn.name, 'forwarded'))
+                                        continue
+                        i += 1
+                rewrite(fn.body)
 
     def _merge_conditional_calls(self):
         """`f(args) if c else g(args)` (same argument expressions) -> `(f if c else g)(args)`: test, callee, arguments are evaluated in
